@@ -1,9 +1,11 @@
 (* Proofs about the E1 model EventV2 (Proto/EventV2Defs.v).
 
-   Part 1 (parametric: every program, every schedule): frame lemmas - reset() only changes the latch
-   (reset_later_only_partial), at-most-once completion (each_once_partial: a counting invariant), and the
-   refutation of quiet_after_completion for cancellable.hpp as it is, with the two witness schedules found on
-   the real code (quiet_after_completion_refuted).
+   Part 1 (parametric: every program, every schedule): reset() only changes the latch
+   (reset_later_only_partial); the refutation of quiet_after_completion for cancellable.hpp as it is, with the
+   two witness schedules found on the real code (quiet_after_completion_refuted); at most one completion per
+   wait (each_once_partial: a counting invariant over the threads between a won try_complete and the
+   completion of the receiver); the head lock has one holder and a latched event has an empty waiter list
+   (latch_inv_reachable, no_waiter_on_latched_event_partial).
 
    Part 2 (per instance, every schedule): for a fixed list of thread programs (<= 2 waiters, a setter, a
    resetter, stop requesters, ready) the model is a finite-state machine (every thread only moves forward).
@@ -134,6 +136,259 @@ Example repaired_same_schedules :
 Proof. split; vm_compute; repeat split. Qed.
 
 (* ------------------------------------------------------------------------------------------ *)
+(* at most one completion per wait, for ALL programs and schedules: a counting invariant         *)
+
+(* threads that won try_complete(k) and have not completed the receiver yet *)
+Definition cnt (k : nat) (a : act) : nat :=
+  match a with
+  | ASyncStore k' _ | AWaitSD k' _ | ADereg k' _ | AComplete k' _ => if Nat.eqb k' k then 1 else 0
+  | _ => 0
+  end.
+Definition pend (k : nat) (l : list thread) : nat := list_sum (map (fun th => cnt k (pc th)) l).
+
+Lemma pend_cons k y l : pend k (y :: l) = cnt k (pc y) + pend k l.
+Proof. reflexivity. Qed.
+
+Lemma pend_set_nth k t th th' l : nth_error l t = Some th ->
+  pend k (set_nth t th' l) + cnt k (pc th) = pend k l + cnt k (pc th').
+Proof.
+  revert t; induction l as [|y l IH]; intros [|t] H; simpl nth_error in H; simpl set_nth; try discriminate.
+  - injection H as ->. rewrite !pend_cons. lia.
+  - specialize (IH _ H). rewrite !pend_cons. lia.
+Qed.
+
+Lemma pend_map_loc k f l : pend k (map (fun x => t_loc (f x) x) l) = pend k l.
+Proof. unfold pend. rewrite map_map. reflexivity. Qed.
+
+Definition OnceInv (s : st) : Prop :=
+  forall k, k < length (ops s) ->
+    pend k (thr s) + length (o_res (getop s k)) <= b2n (o_completed (getop s k)).
+
+Lemma set_nth_out {A} j (x : A) l : length l <= j -> set_nth j x l = l.
+Proof. revert j; induction l as [|y l IH]; intros [|j] H; cbn in *; try lia; auto. f_equal. apply IH. lia. Qed.
+Lemma upd_op_out s j f : length (ops s) <= j -> ops (upd_op s j f) = ops s.
+Proof. intros H. unfold upd_op. cbn. now apply set_nth_out. Qed.
+
+Lemma nth_set_nth_gen {A} w k (x d : A) l :
+  nth k (set_nth w x l) d = if Nat.eqb w k && Nat.ltb w (length l) then x else nth k l d.
+Proof.
+  destruct (Nat.eqb w k) eqn:E; cbn [andb].
+  - apply Nat.eqb_eq in E. subst. destruct (Nat.ltb k (length l)) eqn:L.
+    + apply Nat.ltb_lt in L. now apply nth_set_nth_eq.
+    + apply Nat.ltb_ge in L. now rewrite set_nth_out.
+  - apply Nat.eqb_neq in E. now apply nth_set_nth_neq.
+Qed.
+
+Lemma cnt_next_cmd k th : cnt k (pc (next_cmd th)) = 0.
+Proof. unfold next_cmd. destruct (prog th) as [|[] ?]; reflexivity. Qed.
+
+Ltac red_st H :=
+  cbn [thr ops fixed latched hl evl late_state late_self late_other
+       upd_op set_ops set_thr set_evl set_hl set_latched bump_state bump_self bump_other] in H.
+
+Lemma step_once_inv s t s' e : OnceInv s -> step t s = Some (s', e) -> OnceInv s'.
+Proof.
+  intros HI Hs. unfold step in Hs. destruct (nth_error (thr s) t) as [th|] eqn:E; [|discriminate].
+  destruct (pc th) eqn:Epc.
+  all: unfold ret, fin_start, goto, touch_state, touch_self, touch_other in Hs.
+  all: repeat match type of Hs with
+         | context [freed ?x ?k] => destruct (freed x k)
+         end.
+  all: repeat (unfold upd_thr in Hs; red_st Hs; rewrite ?nth_error_map, ?E in Hs; cbn [option_map] in Hs).
+  all: repeat match type of Hs with
+         | context [match ?x with _ => _ end] => destruct x eqn:?
+         end; try discriminate Hs.
+  all: injection Hs as <- _.
+  all: intros q Hq; specialize (HI q).
+  all: unfold getop in *.
+  all: cbn [thr ops fixed latched hl evl late_state late_self late_other
+            upd_op set_ops set_thr set_evl set_hl set_latched bump_state bump_self bump_other] in *.
+  all: rewrite ?set_nth_length in Hq; specialize (HI Hq).
+  all: rewrite ?nth_set_nth_gen.
+  all: try match goal with
+       | E0 : nth_error (thr ?S) ?T = Some ?TH |- context [pend ?Q (set_nth ?T ?X (thr ?S))] =>
+           pose proof (pend_set_nth Q T TH X (thr S) E0) as HP
+       | E0 : nth_error (thr ?S) ?T = Some ?TH |- context [pend ?Q (set_nth ?T ?X (map ?g (thr ?S)))] =>
+           let H := fresh in
+           assert (H : nth_error (map g (thr S)) T = Some (g TH)) by (rewrite nth_error_map, E0; reflexivity);
+           pose proof (pend_set_nth Q T (g TH) X (map g (thr S)) H) as HP;
+           rewrite pend_map_loc in HP
+       end.
+  all: try (cbn [pc t_goto t_loc] in HP; rewrite ?Epc, ?cnt_next_cmd in HP; cbn [cnt] in HP).
+  all: repeat (progress (unfold getop in *;
+       cbn [thr ops fixed latched hl evl late_state late_self late_other
+            upd_op set_ops set_thr set_evl set_hl set_latched bump_state bump_self bump_other] in *;
+       rewrite ?nth_set_nth_gen)).
+  all: repeat match goal with
+       | H : context [if ?c then _ else _] |- _ => destruct c eqn:?
+       | |- context [if ?c then _ else _] => destruct c eqn:?
+       end.
+  all: repeat match goal with
+       | H : (_ && _)%bool = true |- _ => apply andb_true_iff in H; destruct H
+       | H : Nat.eqb _ _ = true |- _ => apply Nat.eqb_eq in H; subst
+       end.
+  all: cbn [o_res o_completed w_stopped w_started w_completed w_sd w_flag w_req w_cb w_run w_owner w_how w_res w_ret
+            length] in *.
+  all: try lia.
+  all: repeat match goal with
+       | H : o_completed ?x = _ |- _ => rewrite H in *
+       end; cbn [b2n] in *; try lia.
+  all: try match goal with
+       | H : true && (_ <? _) = false |- _ => cbn [andb] in H; apply Nat.ltb_ge in H; lia
+       | H : (?x =? ?x) = false |- _ => rewrite Nat.eqb_refl in H; discriminate H
+       end.
+Qed.
+
+Lemma length_ops_step s t s' e : step t s = Some (s', e) -> length (ops s') = length (ops s).
+Proof.
+  intros Hs. unfold step in Hs. destruct (nth_error (thr s) t) as [th|] eqn:E; [|discriminate].
+  destruct (pc th) eqn:Epc.
+  all: unfold ret, fin_start, goto, touch_state, touch_self, touch_other in Hs.
+  all: repeat match type of Hs with
+         | context [freed ?x ?k] => destruct (freed x k)
+         end.
+  all: repeat (unfold upd_thr in Hs; red_st Hs; rewrite ?nth_error_map, ?E in Hs; cbn [option_map] in Hs).
+  all: repeat match type of Hs with
+         | context [match ?x with _ => _ end] => destruct x eqn:?
+         end; try discriminate Hs.
+  all: injection Hs as <- _.
+  all: cbn [thr ops fixed latched hl evl late_state late_self late_other
+            upd_op set_ops set_thr set_evl set_hl set_latched bump_state bump_self bump_other];
+       rewrite ?set_nth_length; reflexivity.
+Qed.
+
+Theorem each_once_partial (fx sig0 : bool) (progs : list (list cmd)) (sched : list nat) :
+  let s := fst (run step sched (init fx sig0 progs, [])) in
+  forall k, length (o_res (getop s k)) <= 1.
+Proof.
+  cbv zeta.
+  assert (HI : OnceInv (fst (run step sched (init fx sig0 progs, [])))).
+  { apply (run_invariant_state st nat ev step OnceInv).
+    - intros; eapply step_once_inv; eauto.
+    - intros k Hk. cbn [fst init thr ops]. unfold getop. cbn [ops init].
+      assert (Hp : forall l, pend k (map (fun p => next_cmd {| prog := p; pc := AFin; kont := KCmd; loc := [] |}) l) = 0).
+      { induction l as [|p l IH]; [reflexivity|]. cbn [map]. rewrite pend_cons, IH, cnt_next_cmd. reflexivity. }
+      rewrite Hp. destruct (nth_in_or_default k (repeat op0 (nwaiters progs)) op0) as [Hin| ->]; [|cbn; lia].
+      apply repeat_spec in Hin. rewrite Hin. cbn. lia. }
+  intros k. destruct (Nat.lt_ge_cases k (length (ops (fst (run step sched (init fx sig0 progs, [])))))) as [Hk|Hk].
+  - specialize (HI k Hk). destruct (o_completed _); cbn [b2n] in HI; lia.
+  - (* outside the operation table nothing is ever completed *)
+    set (s := fst (run step sched (init fx sig0 progs, []))) in *.
+    unfold getop. rewrite nth_overflow by exact Hk. cbn. lia.
+Qed.
+
+
+(* ------------------------------------------------------------------------------------------ *)
+(* the latch and the list, for ALL programs and schedules                                        *)
+
+Definition cntf (f : act -> nat) (l : list thread) : nat := list_sum (map (fun th => f (pc th)) l).
+Lemma cntf_cons f y l : cntf f (y :: l) = f (pc y) + cntf f l.
+Proof. reflexivity. Qed.
+Lemma cntf_set_nth f t th th' l : nth_error l t = Some th ->
+  cntf f (set_nth t th' l) + f (pc th) = cntf f l + f (pc th').
+Proof.
+  revert t; induction l as [|y l IH]; intros [|t] H; simpl nth_error in H; simpl set_nth; try discriminate.
+  - injection H as ->. rewrite !cntf_cons. lia.
+  - specialize (IH _ H). rewrite !cntf_cons. lia.
+Qed.
+Lemma cntf_map_loc f g l : cntf f (map (fun x => t_loc (g x) x) l) = cntf f l.
+Proof. unfold cntf. rewrite map_map. reflexivity. Qed.
+Lemma cntf_next_cmd_0 f th : (forall c, f (start_of c) = 0) -> f AFin = 0 -> f (pc (next_cmd th)) = 0.
+Proof. intros H1 H2. unfold next_cmd. destruct (prog th); cbn; auto. Qed.
+
+Definition f_pub (a : act) : nat := match a with APushPub _ => 1 | _ => 0 end.
+Definition f_lat (a : act) : nat := match a with APushLatched _ => 1 | _ => 0 end.
+Definition f_spl (a : act) : nat := match a with ASetSplice => 1 | _ => 0 end.
+Definition f_srel (a : act) : nat := match a with ASetRel => 1 | _ => 0 end.
+Definition f_rrel (a : act) : nat := match a with AResetRel => 1 | _ => 0 end.
+
+Definition hlk (s : st) : nat := match hl s with HFree => 0 | HPush => 1 | HExcl => 2 end.
+
+(* the head lock has exactly one holder, of the right kind; the latch and the list agree *)
+Definition LatchInv (s : st) : Prop :=
+  let l := thr s in
+  (hlk s = 0 -> cntf f_pub l + cntf f_lat l + cntf f_spl l + cntf f_srel l + cntf f_rrel l = 0) /\
+  (hlk s = 1 -> cntf f_pub l + cntf f_lat l = 1 /\ cntf f_spl l + cntf f_srel l + cntf f_rrel l = 0) /\
+  (hlk s = 2 -> cntf f_pub l + cntf f_lat l = 0 /\ cntf f_spl l + cntf f_srel l + cntf f_rrel l = 1) /\
+  (latched s = true -> length (evl s) = 0) /\
+  (1 <= cntf f_pub l -> latched s = false) /\
+  (1 <= cntf f_srel l -> length (evl s) = 0).
+
+Lemma remove_nat_length x l : length (remove_nat x l) <= length l.
+Proof. induction l as [|y l IH]; cbn; [lia|]. destruct (Nat.eqb x y); cbn; lia. Qed.
+
+Lemma step_latch_inv s t s' e : LatchInv s -> step t s = Some (s', e) -> LatchInv s'.
+Proof.
+  intros HI Hs. unfold step in Hs. destruct (nth_error (thr s) t) as [th|] eqn:E; [|discriminate].
+  destruct (pc th) eqn:Epc.
+  all: unfold ret, fin_start, goto, touch_state, touch_self, touch_other in Hs.
+  all: repeat match type of Hs with
+         | context [freed ?x ?k] => destruct (freed x k)
+         end.
+  all: repeat (unfold upd_thr in Hs; red_st Hs; rewrite ?nth_error_map, ?E in Hs; cbn [option_map] in Hs).
+  all: repeat match type of Hs with
+         | context [match ?x with _ => _ end] => destruct x eqn:?
+         end; try discriminate Hs.
+  all: repeat match goal with H : nth_error (thr (_ _)) _ = _ |- _ => red_st H end.
+  all: repeat match goal with
+       | H : nth_error (thr _) _ = Some ?x, E0 : nth_error (thr _) _ = Some ?y |- _ =>
+           lazymatch x with y => fail | _ => rewrite E0 in H; injection H as <- end
+       end.
+  all: injection Hs as <- _.
+  all: unfold LatchInv, hlk, hl_free, hl_excl in *.
+  all: cbn [thr ops fixed latched hl evl late_state late_self late_other
+            upd_op set_ops set_thr set_evl set_hl set_latched bump_state bump_self bump_other] in *.
+  all: try match goal with
+       | E0 : nth_error (thr ?S) ?T = Some ?TH |- context [cntf _ (set_nth ?T ?X (thr ?S))] =>
+           pose proof (cntf_set_nth f_pub T TH X (thr S) E0) as HP1;
+           pose proof (cntf_set_nth f_lat T TH X (thr S) E0) as HP2;
+           pose proof (cntf_set_nth f_spl T TH X (thr S) E0) as HP3;
+           pose proof (cntf_set_nth f_srel T TH X (thr S) E0) as HP4;
+           pose proof (cntf_set_nth f_rrel T TH X (thr S) E0) as HP5
+       | E0 : nth_error (thr ?S) ?T = Some ?TH |- context [cntf _ (set_nth ?T ?X (map ?g (thr ?S)))] =>
+           let H := fresh in
+           assert (H : nth_error (map g (thr S)) T = Some (g TH)) by (rewrite nth_error_map, E0; reflexivity);
+           pose proof (cntf_set_nth f_pub T (g TH) X (map g (thr S)) H) as HP1;
+           pose proof (cntf_set_nth f_lat T (g TH) X (map g (thr S)) H) as HP2;
+           pose proof (cntf_set_nth f_spl T (g TH) X (map g (thr S)) H) as HP3;
+           pose proof (cntf_set_nth f_srel T (g TH) X (map g (thr S)) H) as HP4;
+           pose proof (cntf_set_nth f_rrel T (g TH) X (map g (thr S)) H) as HP5;
+           rewrite cntf_map_loc in HP1, HP2, HP3, HP4, HP5
+       end.
+  all: cbn [pc t_goto t_loc] in *; rewrite ?Epc in *.
+  all: rewrite ?(cntf_next_cmd_0 f_pub), ?(cntf_next_cmd_0 f_lat), ?(cntf_next_cmd_0 f_spl),
+         ?(cntf_next_cmd_0 f_srel), ?(cntf_next_cmd_0 f_rrel) in * by (try (intros []); reflexivity).
+  all: cbn [f_pub f_lat f_spl f_srel f_rrel length] in *.
+  all: try pose proof (remove_nat_length w (evl s)).
+  all: destruct (hl s); try discriminate; destruct (latched s); try discriminate.
+  all: try match goal with H : evl _ = _ |- _ => rewrite H in *; cbn [length] in * end.
+  all: try (repeat split; intros; try discriminate; lia).
+Qed.
+
+Theorem latch_inv_reachable (fx sig0 : bool) (progs : list (list cmd)) (sched : list nat) :
+  LatchInv (fst (run step sched (init fx sig0 progs, []))).
+Proof.
+  apply (run_invariant_state st nat ev step LatchInv).
+  - intros; eapply step_latch_inv; eauto.
+  - assert (Hz : forall f, (forall c, f (start_of c) = 0) -> f AFin = 0 ->
+              forall l, cntf f (map (fun p => next_cmd {| prog := p; pc := AFin; kont := KCmd; loc := [] |}) l) = 0).
+    { intros f H1 H2. induction l as [|p l IH]; [reflexivity|]. cbn [map].
+      rewrite cntf_cons, IH, cntf_next_cmd_0 by assumption. reflexivity. }
+    unfold LatchInv, hlk. cbn [fst init thr hl latched evl length].
+    rewrite !Hz by (try (intros []); reflexivity). repeat split; intros; try discriminate; lia.
+Qed.
+
+(* no stranded wait, for ALL programs and schedules: while the event is latched its waiter list is empty;
+   and the lock bit of the head word has exactly one holder *)
+Theorem no_waiter_on_latched_event_partial (fx sig0 : bool) (progs : list (list cmd)) (sched : list nat) :
+  let s := fst (run step sched (init fx sig0 progs, [])) in
+  latched s = true -> evl s = [].
+Proof.
+  cbv zeta. intros Hl. destruct (latch_inv_reachable fx sig0 progs sched) as (_ & _ & _ & H & _).
+  specialize (H Hl). destruct (evl _); [reflexivity|discriminate H].
+Qed.
+
+(* ------------------------------------------------------------------------------------------ *)
 (* Part 2: reachable-set certificates for fixed thread programs                                *)
 
 (* decidable equality of states *)
@@ -211,7 +466,7 @@ Definition d_st (s : st) : list N :=
   [nb (fixed s) + 2 * nb (latched s) + 4 * match hl s with HFree => 0 | HPush => 1 | HExcl => 2 end;
    nn (late_state s); nn (late_self s); nn (late_other s)]
   ++ d_list d_nat (evl s) ++ d_list d_op (ops s) ++ d_list d_thread (thr s).
-Definition code (s : st) : positive := N.succ_pos (fold_left (fun a d => a * 64 + d) (d_st s) 1).
+Definition code (s : st) : positive := N.succ_pos (fold_left (fun a d => N.lor (N.shiftl a 6) d) (d_st s) 1).
 Local Close Scope N_scope.
 
 Section Reach.
@@ -249,20 +504,38 @@ Section Reach.
   Definition reach (fuel : nat) (s0 : st) : smap :=
     bfs fuel [s0] (PositiveMap.add (code s0) s0 (PositiveMap.empty st)).
 
-  Definition closed (R : smap) : bool :=
-    forallb (fun cs => forallb (inR R) (succs (snd cs))) (PositiveMap.elements R).
+  (* a predicate on every state stored in the map (PositiveMap.elements rebuilds every key: far too slow
+     for keys of several hundred bits) *)
+  Fixpoint tree_forall (f : st -> bool) (m : smap) : bool :=
+    match m with
+    | PositiveMap.Leaf _ => true
+    | PositiveMap.Node l o r =>
+        match o with Some x => f x | None => true end && tree_forall f l && tree_forall f r
+    end.
 
-  Definition all_ok (P : st -> bool) (R : smap) : bool :=
-    forallb (fun cs => P (snd cs)) (PositiveMap.elements R).
+  Lemma tree_forall_find f m : tree_forall f m = true ->
+    forall k x, PositiveMap.find k m = Some x -> f x = true.
+  Proof.
+    induction m as [|l IHl o r IHr]; cbn; intros H k x Hk.
+    - destruct k; discriminate Hk.
+    - apply andb_true_iff in H as [H Hr]. apply andb_true_iff in H as [Ho Hl].
+      destruct k as [k|k|]; cbn in Hk.
+      + eapply IHr; eauto.
+      + eapply IHl; eauto.
+      + subst o. exact Ho.
+  Qed.
+
+  Definition closed (R : smap) : bool := tree_forall (fun s => forallb (inR R) (succs s)) R.
+
+  Definition all_ok (P : st -> bool) (R : smap) : bool := tree_forall P R.
 
   Definition check_with (P : st -> bool) (s0 : st) (R : smap) : bool :=
     inR R s0 && closed R && all_ok P R.
 
-  Lemma inR_elements R s : inR R s = true -> In (code s, s) (PositiveMap.elements R).
+  Lemma inR_find R s : inR R s = true -> PositiveMap.find (code s) R = Some s.
   Proof.
     unfold inR. destruct (PositiveMap.find (code s) R) as [s'|] eqn:E; [|discriminate].
-    destruct (st_eq_dec s s') as [->|]; [|discriminate]. intros _.
-    apply PositiveMap.elements_correct. exact E.
+    destruct (st_eq_dec s s') as [->|]; [|discriminate]. reflexivity.
   Qed.
 
   Lemma step_in_succs t s s' evs : step t s = Some (s', evs) -> In s' (succs s).
@@ -275,9 +548,9 @@ Section Reach.
   Lemma closed_step R : closed R = true ->
     forall s t s' evs, inR R s = true -> step t s = Some (s', evs) -> inR R s' = true.
   Proof.
-    intros Hc s t s' evs Hin Hs. unfold closed in Hc. rewrite forallb_forall in Hc.
-    specialize (Hc _ (inR_elements _ _ Hin)). cbn [snd] in Hc. rewrite forallb_forall in Hc.
-    apply Hc. eapply step_in_succs; eauto.
+    intros Hc s t s' evs Hin Hs. unfold closed in Hc.
+    pose proof (tree_forall_find _ _ Hc _ _ (inR_find _ _ Hin)) as H. cbv beta in H.
+    rewrite forallb_forall in H. apply H. eapply step_in_succs; eauto.
   Qed.
 
   Theorem check_with_sound P s0 R : check_with P s0 R = true ->
@@ -288,8 +561,7 @@ Section Reach.
     assert (Hin : inR R (fst (run step sched (s0, []))) = true).
     { apply (run_invariant_state st nat ev step (fun s => inR R s = true)); [|exact H1].
       intros s t s' e HI Hs. eapply closed_step; eauto. }
-    unfold all_ok in H3. rewrite forallb_forall in H3.
-    exact (H3 _ (inR_elements _ _ Hin)).
+    exact (tree_forall_find _ _ H3 _ _ (inR_find _ _ Hin)).
   Qed.
 End Reach.
 
@@ -366,6 +638,9 @@ Definition instances : list instance :=
     {| i_sig0 := false; i_progs := [[CWait 0]; [CWait 1]; [CSet]; [CStop 1]]; i_quiet := false |};
     {| i_sig0 := false; i_progs := [[CWait 0]; [CWait 1]; [CSet]; [CReset]; [CStop 1]]; i_quiet := false |};
     {| i_sig0 := false; i_progs := [[CWait 0]; [CWait 1]; [CSet]; [CStop 0]; [CStop 1]]; i_quiet := false |};
+    (* two racing set() *)
+    {| i_sig0 := false; i_progs := [[CWait 0]; [CSet]; [CSet]; [CStop 0]]; i_quiet := false |};
+    {| i_sig0 := false; i_progs := [[CWait 0]; [CWait 1]; [CSet]; [CSet]]; i_quiet := false |};
     (* the code as it is, paths that do not race start(): the setter is the thread that started the waits *)
     {| i_sig0 := false; i_progs := [[CWait 0; CSet]; [CStop 0]; [CReset]]; i_quiet := true |};
     {| i_sig0 := false; i_progs := [[CWait 0; CWait 1; CSet]; [CStop 0]; [CStop 1]]; i_quiet := true |} ].
@@ -375,9 +650,9 @@ Definition check_inst (fx : bool) (i : instance) : bool :=
   check_with (P_all (i_quiet i || fx)) s0 (reach 200000 s0).
 
 Lemma check_all_asis : forallb (check_inst false) instances = true.
-Proof. vm_compute. reflexivity. Qed.
+Proof. vm_cast_no_check (eq_refl true). Qed.
 Lemma check_all_fixed : forallb (check_inst true) instances = true.
-Proof. vm_compute. reflexivity. Qed.
+Proof. vm_cast_no_check (eq_refl true). Qed.
 
 Theorem P_all_reachable fx i sched : In i instances ->
   P_all (i_quiet i || fx) (fst (run step sched (init fx (i_sig0 i) (i_progs i), []))) = true.
